@@ -298,6 +298,74 @@ def exhaustive_small(limit=None):
     return out
 
 
+def gen_history(rng):
+    """an interleaved history of insertions and lookups: names are indexed one by one (strict dotted prefixes of already
+    indexed names included - a flat test after its own composite nodes), and between the insertions the same partial names
+    are looked up again and again"""
+    names = gen_names(rng, rng.random() < 0.6)
+    for n in list(names):
+        if len(n) > 1 and rng.random() < 0.5:
+            pre = n[:rng.randint(1, len(n) - 1)]
+            if pre not in names:
+                names.insert(rng.randint(names.index(n) + 1 if rng.random() < 0.7 else 0, len(names)), pre)
+    qs = queries(rng, names, extra=2)
+    rng.shuffle(qs)
+    watch = qs[:rng.randint(1, min(4, len(qs)))]
+    ops = []
+    for n in names:
+        ops.append(("ins", n))
+        for q in watch:
+            if rng.random() < 0.7:
+                ops.append((rng.choice(["get", "get", "has"]), q))
+    for q in watch:
+        ops.append(("get", q))
+    return ops
+
+
+def run_trie_histories(ctx, histories, oracle=True):
+    """histories: lists of ("ins", name) / ("get", query) / ("has", query) in the order they are applied"""
+    PrefixTree, EdgeRegister, TestNode, param, Params = _impl()
+    lines, expect = [], []
+    for ci, ops in enumerate(histories):
+        tree = PrefixTree()
+        lines.append("trie-new")
+        expect.append((ci, "new", None, "ok"))
+        names = []
+        for op, arg in ops:
+            if op == "ins":
+                stub = types.SimpleNamespace(params={"name": ".".join(arg)}, idx=len(names))
+                names.append(arg)
+                tree.insert(stub)
+                lines.append(f"trie-insert {'.'.join(arg)} {stub.idx}")
+                expect.append((ci, "insert", arg, "ok"))
+                continue
+            wf = is_wf(names)
+            want = sorted(i for i, n in enumerate(names) if infix(arg, n))
+            if op == "get":
+                got = sorted(s.idx for s in tree.get(".".join(arg)))
+                lines.append(f"trie-get {'.'.join(arg)}")
+                expect.append((ci, "get", arg, " ".join(map(str, got))))
+                if oracle and wf and got != want:
+                    ctx.violate("trie-get-not-exact", f"after indexing {['.'.join(n) for n in names]} one by one (with lookups "
+                                f"in between): get({'.'.join(arg)}) returned {got}, contiguous matches are {want}",
+                                {"kind": "trie-history", "ops": [[o, a] for o, a in ops]})
+            else:
+                has = ".".join(arg) in tree
+                lines.append(f"trie-has {'.'.join(arg)}")
+                expect.append((ci, "has", arg, "true" if has else "false"))
+                if oracle and wf and has != bool(want):
+                    ctx.violate("trie-contains-disagrees", f"'{'.'.join(arg)}' in tree = {has}, a scan of the indexed names "
+                                f"gives {want}", {"kind": "trie-history", "ops": [[o, a] for o, a in ops]})
+        ctx.count("trie.history")
+        ctx.count(f"trie.history.ops={min(len(ops) // 5 * 5, 40)}+")
+        ctx.case({"kind": "trie-history", "ops": [[o, ".".join(a)] for o, a in ops]}, nontrivial=len(names) > 1)
+    out = vlib.driver("drv_index", lines)
+    for (ci, op, arg, want), got in zip(expect, out):
+        if want != got:
+            ctx.disagree(f"trie-history:{op}", {"kind": "trie-history", "ops": [[o, a] for o, a in histories[ci]]}, got, want)
+            break
+
+
 def correspondence(ctx):
     rng = ctx.rng
     thorough = ctx.tier == "thorough" or ctx.extra.get("drift")
@@ -328,6 +396,9 @@ def correspondence(ctx):
             cases.append((names, queries(rng, names, extra=0)))
     for i in range(0, len(cases), 2000):
         run_trie_cases(ctx, cases[i:i + 2000])
+    hist = [gen_history(rng) for _ in range(n_trie // 3)]
+    for i in range(0, len(hist), 2000):
+        run_trie_histories(ctx, hist[i:i + 2000])
     rcases = [gen_register_case(rng, rng.random() < 0.6) for _ in range(n_reg)]
     for i in range(0, len(rcases), 2000):
         run_register_cases(ctx, rcases[i:i + 2000])
@@ -375,5 +446,7 @@ def replay(ctx, payload):
     if c.get("kind") == "trie":
         qs = [c["query"]] if c.get("query") else queries(ctx.rng, c["names"])
         run_trie_cases(ctx, [([list(n) for n in c["names"]], qs)])
+    elif c.get("kind") == "trie-history":
+        run_trie_histories(ctx, [[(o, list(a) if isinstance(a, list) else a.split(".")) for o, a in c["ops"]]])
     elif c.get("kind") == "reg":
         run_register_cases(ctx, [([tuple(n) for n in c["nodes"]], [tuple(o) for o in c["ops"]], True)])
